@@ -158,7 +158,7 @@ def check_function(ctx, spec, rng, ci):
                 finally:
                     jax.config.update("jax_enable_checks", True)
             ctx.violation(
-                f"C36|op={op}|on={','.join(fclass[:3]) or 'straight-line'}|field=raises|cond={mode},{common.exc_mechanism(e)}",
+                f"C36|op={op}|on=interpreter|field=raises|cond={mode},{common.exc_mechanism(e)}",
                 detail=f"{type(e).__name__}: {str(e)[:400]}", **wit(si),
             )
             return False, None
@@ -192,8 +192,15 @@ def check_function(ctx, spec, rng, ci):
                     f"C36|op={op}|on={cls}|field=value|cond={mode}",
                     detail=f"output leaf {j} ({cls}): got {common.short(ga.tolist())}, ordinary evaluation {common.short(np.asarray(e).tolist())}", **wit(si),
                 )
-            elif not ref.is_lit[j] and not O.same_aval(e, ga):
-                ctx.violation(f"C36|op={op}|on={cls}|field=dtype|cond={mode}", detail=f"output leaf {j}: {ga.dtype}{ga.shape} vs ordinary evaluation {np.asarray(e).dtype}{np.asarray(e).shape}", **wit(si))
+            elif not ref.is_lit[j]:
+                # dtype: only for leaves that are jax arrays (a closed-over numpy constant that never
+                # meets a jax operation is handed back as the numpy object it was, as f itself does)
+                if isinstance(g, jax.Array):
+                    ctx.count("c36_dtype_checks")
+                    if g.dtype != shape_ref[j].dtype:
+                        ctx.violation(f"C36|op={op}|on={cls}|field=dtype|cond={mode}", detail=f"output leaf {j}: {g.dtype} vs ordinary evaluation {shape_ref[j].dtype}", **wit(si))
+                else:
+                    ctx.count("c36_dtype_checks_skipped_non_jax_leaf")
 
     def judge_avals(out, mode, op):
         ctx.count("mode:" + mode)
@@ -213,12 +220,14 @@ def check_function(ctx, spec, rng, ci):
             ctx.violation(f"C36|op=stateful|on=handler|field=dispatch-called|cond={mode}", detail="dispatch() was called on a handler whose handles() is always False", **wit(0))
 
     # ---- stateful, eager
-    h = H()
-    ok, out = guarded(lambda: stateful(f0)(h, *ref.args[0]), "stateful-eager", 0, "stateful")
-    if ok:
-        judge(out, ref.eager[0], "stateful-eager", 0, "stateful")
-    handler_report(h, "stateful-eager")
-    lap("stateful-eager")
+    # (op-by-op evaluation compiles every control-flow primitive: 2 of 3 functions in quick)
+    if ctx.tier == "thorough" or ci % 3 != 2:
+        h = H()
+        ok, out = guarded(lambda: stateful(f0)(h, *ref.args[0]), "stateful-eager", 0, "stateful")
+        if ok:
+            judge(out, ref.eager[0], "stateful-eager", 0, "stateful")
+        handler_report(h, "stateful-eager")
+        lap("stateful-eager")
     # ---- stateful, abstract
     h = H()
     ok, out = guarded(lambda: jax.eval_shape(lambda *a: stateful(f0)(h, *a), *ref.args[0]), "stateful-trace", 0, "stateful")
@@ -236,8 +245,8 @@ def check_function(ctx, spec, rng, ci):
     handler_report(h, "stateful-jit")
     lap("stateful-jit")
     # ---- initial_style_bind outside any handler
-    # (op-by-op evaluation compiles every control-flow primitive: every second function in quick)
-    if ctx.tier == "thorough" or ci % 2 == 1:
+    # (op-by-op evaluation compiles every control-flow primitive: every third function in quick)
+    if ctx.tier == "thorough" or ci % 3 == 1:
         ok, out = guarded(lambda: w(*ref.args[0]), "isb-eager", 0, "initial_style_bind")
         if ok:
             judge(out, ref.eager[0], "isb-eager", 0, "initial_style_bind")
@@ -271,7 +280,7 @@ def check_function(ctx, spec, rng, ci):
             judge(out, ref.eager[0], "stateful-of-isb-eager", 0, "stateful+initial_style_bind")
         handler_report(h, "stateful-of-isb-eager")
         lap("stateful-of-isb-eager")
-    else:
+    elif ci % 4 == 2:
         h = H()
         swj = jax.jit(lambda *a: stateful(w)(h, *a))
         ok, out = guarded(lambda: swj(*ref.args[1 % len(ref.args)]), "stateful-of-isb-jit", 1 % len(ref.args), "stateful+initial_style_bind")
@@ -306,6 +315,54 @@ def check_function(ctx, spec, rng, ci):
     ctx.sample({"program": ref.src, "inputs": wit(0)["inputs"], "describe": G.describe(spec)}, limit=2)
 
 
+def check_corpus(ctx, name, f, args):
+    """Fixed hand-written functions (PRNG keys, transforms inside, None/empty/bare outputs, dtype
+    zoo) through the interpreter and through an initial-style primitive, eagerly and under jit."""
+    import jax
+    import jax.tree_util as jtu
+    from genjax._src.core.compiler.initial_style_primitive import initial_style_bind
+    from genjax._src.core.compiler.interpreters.stateful import stateful
+
+    H = _handler_cls()
+    ref_out = f(*args)
+    ref_leaves = jtu.tree_leaves(ref_out)
+    jit_leaves = jtu.tree_leaves(jax.jit(f)(*args))
+    struct = O.struct_of(ref_out)
+    on = "corpus-" + name
+    witness = dict(program=f"vf.gen.jaxfns.corpus() entry {name!r}")
+    ctx.count("c36_corpus_functions")
+    w = initial_style_bind(_prim())(f)
+    h = H()
+    runs = [
+        ("stateful-eager", "stateful", lambda: stateful(f)(h, *args), ref_leaves),
+        ("stateful-jit", "stateful", lambda: jax.jit(lambda *a: stateful(f)(h, *a))(*args), jit_leaves),
+        ("isb-eager", "initial_style_bind", lambda: w(*args), ref_leaves),
+        ("isb-jit", "initial_style_bind", lambda: jax.jit(w)(*args), jit_leaves),
+        ("stateful-of-isb-eager", "stateful+initial_style_bind", lambda: stateful(w)(h, *args), ref_leaves),
+    ]
+    for mode, op, thunk, expected in runs:
+        try:
+            out = thunk()
+        except Exception as e:
+            ctx.violation(f"C36|op={op}|on={on}|field=raises|cond={mode},{common.exc_mechanism(e)}", detail=f"{type(e).__name__}: {str(e)[:300]}", **witness)
+            continue
+        ctx.count("mode:corpus-" + mode)
+        ctx.evaluation(fingerprint=(on, mode), nontrivial=True)
+        flat = jtu.tree_leaves(out)
+        if O.struct_of(out) != struct or len(flat) != len(expected):
+            ctx.violation(f"C36|op={op}|on={on}|field=structure|cond={mode}", detail=f"output tree {O.struct_of(out)} vs ordinary evaluation {struct}", **witness)
+            continue
+        for j, (g, e) in enumerate(zip(flat, expected)):
+            ctx.count("c36_leaves_compared")
+            if not O.same_value_any(e, g):
+                ctx.violation(f"C36|op={op}|on={on}|field=value|cond={mode}", detail=f"output leaf {j}: {common.short(g)} vs ordinary evaluation {common.short(e)}", **witness)
+            elif isinstance(g, jax.Array) and isinstance(e, jax.Array) and g.dtype != e.dtype:
+                ctx.violation(f"C36|op={op}|on={on}|field=dtype|cond={mode}", detail=f"output leaf {j}: {g.dtype} vs {e.dtype}", **witness)
+    ctx.count("handler_queries", h.asked)
+    if h.dispatched:
+        ctx.violation(f"C36|op=stateful|on=handler|field=dispatch-called|cond=corpus", detail="dispatch() was called", **witness)
+
+
 def run(ctx):
     common.import_repo()
     import jax
@@ -313,6 +370,9 @@ def run(ctx):
     if ctx.shard % 4 == 1:
         jax.config.update("jax_enable_checks", True)
         ctx.count("shards_with_jax_enable_checks")
+    for k, (name, f, args) in enumerate(G.corpus()):
+        if k % ctx.nshards == ctx.shard:
+            check_corpus(ctx, name, f, args)
     n = ctx.pick(150, 2500)
     budget = ctx.pick(70.0, 780.0)
     for ci in ctx.my_share(n):
